@@ -221,10 +221,15 @@ LinEval(k, which) ==
          [] which = "columns"   -> pColumns
          [] which = "transpose" -> pTranspose
          [] which = "ortho"     -> ((Ortho(dg) /\ Ortho(rg)) => codedIsTranspose)
+         \* the transposed model is a linear model too: ITS matrix has the columns of ITS forward map.  A transposed model
+         \* that is handed the (transposed) assembled matrix of the original satisfies this exactly when Matrix^T has the
+         \* columns T.Fwd e_j - true on the intended design, false once the exposed adjoint is not the transpose.
+         [] which = "tinherit"  -> \A j \in 1..pr : Matrix[j] = TFwdCols[j]
          [] which = "emit"      -> PrintT("@@CASE " \o ToJson(
              [kind |-> "lin", mk |-> k.mk, dg |-> dg, rg |-> rg, fi |-> k.fi,
               F |-> CoreF(k.fi, rg.n, dg.n), x |-> IVecA(pd, k.fi), y |-> IVecB(pr, k.fi),
               fwd_x |-> FwdV(x), adj_y |-> AdjIntV(y), adj_y_coded |-> AdjCodV(y),
+              adj_cols_coded |-> AdjCodCols,
               matrix |-> MatInt, coded_is_transpose |-> codedIsTranspose,
               Gd |-> G, Gpd |-> (IF F2PLinear(dg) THEN GpM(dg) ELSE <<>>), Hr |-> GM(rg), Hpr |-> Hp,
               t_fwd_coded |-> TFwdCod(y), t_adj_coded |-> TAdjCod(x)]) \o " @@END")
@@ -446,9 +451,123 @@ C12Eval(k, which) ==
               grad_defined |-> GradDefined, grad |-> (IF GradDefined THEN GradTrue ELSE <<>>)]) \o " @@END")
 
 \* ===========================================================================
+\* C07, part "SEQ": a sequence of public operations on ONE model object
+\* ===========================================================================
+\* The configurations above describe a freshly constructed model.  The geometries of a model are public attributes
+\* (`:ivar domain_geometry`, `:ivar range_geometry`; the test-suite and the demos assign them), get_matrix() and T may keep
+\* what they computed.  This part is a small state machine over one model object:
+\*     GetMatrix                     m.get_matrix()
+\*     T                             t = m.T        (the transposed model the user now holds; its forward / adjoint are read)
+\*     TGetMatrix                    t.get_matrix()
+\*     TT                            t.T            (its forward / adjoint / get_matrix() are read)
+\*     SetDomainGeometry(g')         m.domain_geometry = g'      (the user drops t)
+\*     SetRangeGeometry(g')          m.range_geometry = g'
+\* The abstract state records FOR WHICH PAIR of geometries each value that an object may keep was computed:
+\*     mc        pair of the assembled matrix m keeps                      (<<>> = none)
+\*     t.p       pair the held transposed model was built for
+\*     t.mc      pair of the matrix the held transposed model keeps (its own, or handed over by m: t.inh)
+\* INTENDED design: whatever a call returns is the value LinEval gives for the CURRENT pair (d, r) - the exposed values
+\* are a function of the current geometries alone, in any order of get_matrix / T / assignments.  forward / adjoint are
+\* read after every action.  Deviations:
+\*   StaleMatrixCache     an assignment of a geometry leaves the assembled matrix in place
+\*   TransposeKeptWhileGeometriesCompareEqual   m keeps its transposed model and hands it out again as long as the
+\*                        library's `==` calls the geometries equal (a default geometry `==` every Continuous1D subclass
+\*                        on the same grid, whatever its par2fun)
+\*   AdjointViaFun2par    (above) together with the hand-over of the assembled matrix by a function-backed model:
+\*                        the matrix of the transposed model no longer has the columns of its forward map (SeqTColumns)
+\* The numbers come from LinEval: a behaviour is emitted as the sequence of its actions with the pair (d, r) after each
+\* action and the pair(s) the reported values belong to (equal to (d, r) in the deciding configuration; the `asbuilt`
+\* configuration emits what the deviations predict instead, which is how a mismatch is attributed to a recorded finding).
+SeqDepth == IF Lean THEN 3 ELSE 4
+SeqD == << Geo("default1d", 6, 6, 1, 6, "", <<>>),
+           Geo("step", 6, StepK(6, FALSE), 1, 6, "mean", StepAsg(6, FALSE)),
+           Geo("mapped", 6, 6, 1, 6, "", <<>>),
+           Geo("linexp", 6, LinK(6), 1, 6, "", <<>>) >>
+        \o (IF Lean THEN <<>> ELSE << Geo("imgF", 6, 6, 2, 3, "", <<>>) >>)
+SeqR == << Geo("default1d", 4, 4, 1, 4, "", <<>>),
+           Geo("step", 4, StepK(4, FALSE), 1, 4, "mean", StepAsg(4, FALSE)),
+           Geo("mapped", 4, 4, 1, 4, "", <<>>) >>
+        \o (IF Lean THEN <<>> ELSE << Geo("linexp", 4, LinK(4), 1, 4, "", <<>>) >>)
+\* <<model kind, domain geometry, range geometry, core operator>> of the freshly constructed model
+SeqStart == IF Lean
+            THEN { <<mk, p[1], p[2], 1>> : mk \in {"dense", "func"}, p \in {<<1, 1>>, <<2, 3>>, <<4, 2>>, <<3, 1>>} }
+                 \cup { <<"sparse", 1, 1, 1>>, <<"sparse", 2, 3, 1>> }
+            ELSE { <<mk, p[1], p[2], p[3]>> : mk \in LinKinds, p \in {<<1, 1, 1>>, <<2, 3, 2>>, <<4, 2, 3>>, <<3, 4, 1>>} }
+                 \cup { <<"func", 5, 2, 2>> }
+SeqGeoOK(mk, g) == MatrixBacked(mk) => VecFun(g)
+
+\* the library's `==` between the geometry a kept object was built with (old) and the one now assigned (new), for the
+\* realisations of the replay (unit-spaced grids): _DefaultGeometry1D.__eq__ accepts every Continuous1D subclass
+GeoLibEq(old, new) == \/ old = new
+                      \/ (old.kind = "default1d" /\ new.kind \in {"cont1d", "step"} /\ new.n = old.n)
+SeqLibEq(p, q) == GeoLibEq(SeqD[p[1]], SeqD[q[1]]) /\ GeoLibEq(SeqR[p[2]], SeqR[q[2]])
+
+SeqCur(s)    == <<s.d, s.r>>
+SeqIdPair(p) == IdType(SeqD[p[1]]) /\ IdType(SeqR[p[2]])
+NoT          == [on |-> FALSE, p |-> <<>>, mc |-> <<>>, inh |-> FALSE]
+SeqLog(s, s2, a, g, tp, mp, inh) ==
+    [s2 EXCEPT !.hist = Append(s.hist, [a |-> a, g |-> g, d |-> s2.d, r |-> s2.r, tp |-> tp, mp |-> mp, inh |-> inh])]
+
+\* get_matrix() of an object with the pair `cur`, matrix kept for the pair `mc`: <<pair of the returned matrix, pair kept afterwards>>.
+\* (a matrix-backed model with identity-like geometries returns the matrix it was given: nothing is assembled or kept)
+SeqMatrixOf(mk, cur, mc) ==
+    LET stored == MatrixBacked(mk) /\ SeqIdPair(cur)
+        rp == IF stored \/ mc = <<>> THEN cur ELSE mc
+    IN <<rp, IF stored THEN mc ELSE rp>>
+
+SeqGetMatrix(s) ==
+    LET m == SeqMatrixOf(s.mk, SeqCur(s), s.mc)
+        s2 == [s EXCEPT !.mc = m[2]]
+    IN SeqLog(s, s2, "G", 0, <<>>, m[1], FALSE)
+SeqSet(s, side, g) ==
+    LET s1 == IF side = "D" THEN [s EXCEPT !.d = g] ELSE [s EXCEPT !.r = g]
+        s2 == [s1 EXCEPT !.mc = IF "StaleMatrixCache" \in Dev THEN s.mc ELSE <<>>, !.t = NoT]
+    IN SeqLog(s, s2, "S" \o side, g, <<>>, <<>>, FALSE)
+SeqT(s) ==
+    LET cur  == SeqCur(s)
+        kept == "TransposeKeptWhileGeometriesCompareEqual" \in Dev
+        keep == kept /\ s.tc.on /\ SeqLibEq(s.tc.p, cur)
+        \* a function-backed model hands its assembled matrix, transposed, to the transposed model
+        hand == IF s.mk = "func" THEN s.mc ELSE <<>>
+        t2   == IF keep THEN s.tc ELSE [on |-> TRUE, p |-> cur, mc |-> hand, inh |-> hand # <<>>]
+        s2   == [s EXCEPT !.t = t2, !.tc = IF kept THEN t2 ELSE NoT]
+    IN SeqLog(s, s2, "T", 0, t2.p, <<>>, FALSE)
+SeqTG(s) ==
+    LET m == SeqMatrixOf(s.mk, s.t.p, s.t.mc)
+        t2 == [s.t EXCEPT !.mc = m[2]]
+        s2 == [s EXCEPT !.t = t2, !.tc = IF s.tc.on THEN t2 ELSE NoT]
+    IN SeqLog(s, s2, "TG", 0, s.t.p, m[1], s.t.inh)
+SeqTT(s) ==
+    LET hand == IF s.mk = "func" THEN s.t.mc ELSE <<>>
+    IN SeqLog(s, s, "TT", 0, s.t.p, IF hand # <<>> THEN hand ELSE s.t.p, FALSE)
+
+InitSeq == c \in { [part |-> "SEQ", mk |-> k[1], fi |-> k[4], d0 |-> k[2], r0 |-> k[3], d |-> k[2], r |-> k[3], mc |-> <<>>,
+                    t |-> NoT, tc |-> NoT, hist |-> <<>>] : k \in SeqStart }
+NextSeq == /\ c.part = "SEQ" /\ Len(c.hist) < SeqDepth
+           /\ \/ c' = SeqGetMatrix(c)
+              \/ c' = SeqT(c)
+              \/ c.t.on /\ c' = SeqTG(c)
+              \/ c.t.on /\ c' = SeqTT(c)
+              \/ \E g \in 1..Len(SeqD) : g # c.d /\ SeqGeoOK(c.mk, SeqD[g]) /\ c' = SeqSet(c, "D", g)
+              \/ \E g \in 1..Len(SeqR) : g # c.r /\ SeqGeoOK(c.mk, SeqR[g]) /\ c' = SeqSet(c, "R", g)
+
+\* may the transposed model of a function-backed model be handed the transposed assembled matrix for this pair ?
+SeqInheritOK == F([fi \in 1..NF |-> [d \in 1..Len(SeqD) |-> [r \in 1..Len(SeqR) |->
+                    LinEval([part |-> "C07", mk |-> "func", dg |-> SeqD[d], rg |-> SeqR[r], fi |-> fi], "tinherit")]]])
+
+SeqEmit(s) ==
+    IF s.hist = <<>>
+    THEN PrintT("@@CASE " \o ToJson([kind |-> "seqinit", mk |-> s.mk, fi |-> s.fi, d |-> s.d, r |-> s.r, D |-> SeqD, R |-> SeqR,
+                                      depth |-> SeqDepth]) \o " @@END")
+    ELSE IF Len(s.hist) = SeqDepth
+    THEN PrintT("@@CASE " \o ToJson([kind |-> "seq", mk |-> s.mk, fi |-> s.fi, d0 |-> s.d0, r0 |-> s.r0, steps |-> s.hist]) \o " @@END")
+    ELSE TRUE
+
+\* ===========================================================================
 Configs == CASE Part = "C07" -> {k \in LinConfigs : LinValid(k)}
              [] Part = "TP"  -> {k \in TPConfigs : TPValid(k)}
              [] Part = "C12" -> {k \in C12Configs : C12Valid(k)}
+             [] Part = "SEQ" -> {}
 
 \* one named invariant per property, so that a deviation run names what it violates
 Adjoint     == c.part = "C07" => LinEval(c, "adjoint")        \* <Fwd x, y> = <x, Adj y>
@@ -460,9 +579,14 @@ ConvAdjoint == c.part = "TP"  => TPEval(c, "convadjoint")     \* adjoint of the 
 OneOutput   == c.part = "C12" => C12Eval(c, "oneoutput")      \* five representations, one output
 ChainRule   == c.part = "C12" => C12Eval(c, "chainrule")      \* gradient = exact derivative of the par -> par map
 Rename      == c.part = "C12" => C12Eval(c, "rename")
+\* SEQ: whatever an object keeps was computed for the geometries the model has NOW
+SeqMatrixCurrent    == c.part = "SEQ" => (c.mc # <<>> => c.mc = SeqCur(c))
+SeqTransposeCurrent == c.part = "SEQ" => (c.t.on => (c.t.p = SeqCur(c) /\ (c.t.mc # <<>> => c.t.mc = c.t.p)))
+SeqTColumns         == c.part = "SEQ" => ((c.t.on /\ c.t.inh) => SeqInheritOK[c.fi][c.t.mc[1]][c.t.mc[2]])
 EmitCases   == Emit => CASE c.part = "C07" -> LinEval(c, "emit")
                          [] c.part = "TP"  -> TPEval(c, "emit")
                          [] c.part = "C12" -> C12Eval(c, "emit")
+                         [] c.part = "SEQ" -> SeqEmit(c)
                          [] OTHER          -> TRUE
 
 \* TLC evaluates the invariants of initial states in one thread: the initial states are seeds (one per domain geometry /
